@@ -82,11 +82,31 @@ def add_singles(g, rng, t, k):
         x["slots"][i] = (e1, s)
     return t
 
+def degree_one_root(g, rng, t):
+    """put a root with a single neighbour above t (outside the oracle's domain: correspondence only)"""
+    sub = {"name": t["name"], "coms": t["coms"], "slots": list(t["slots"])}
+    sub["slots"].insert(rng.randrange(0, len(sub["slots"]) + 1), None)
+    e = {"len": g.length("mixed"), "sup": g.support("mixed"), "pv": None, "coms": []}
+    return {"name": rng.choice(["r", "rr"]), "coms": [], "slots": [(e, sub)]}
+
 def gen(rng, tier):
     g = Gen(rng)
     out = []
     def add(d, **meta):
         out.append({"sx": sx(d), "meta": meta})
+    # ---- trees whose root has a single neighbour (the root is then a tip for the code)
+    for _ in range({"quick": 12, "thorough": 150, "search": 10}[tier]):
+        t = degree_one_root(g, rng, rand_tree(g, rng, tier, hi=8))
+        ed = rng.choice(EDITS)
+        add({"op": Sym("clone"), "tree": T(t), "edit": Sym(ed), "reinit": rng.random() < 0.5}, op="clone", edit=ed, root1=True)
+        add({"op": Sym("subtree"), "tree": T(t), "i": rng.randrange(n_nodes(t)), "edit": Sym(ed), "reinit": rng.random() < 0.5},
+            op="subtree", edit=ed, root1=True)
+        add({"op": Sym("rmsingle"), "tree": T(add_singles(g, rng, t, rng.randint(0, 2))), "idx": rng.random() < 0.5}, op="rmsingle", root1=True)
+        gr = rand_tree(g, rng, tier, prefix="g", lo=2, hi=4)
+        for tip in [t["name"], rng.choice(leaves(t))]:
+            add({"op": Sym("graft"), "tree": T(t), "graft": T(gr), "tip": tip, "idx": True}, op="graft", root1=True)
+        for old in [t["name"], rng.choice(leaves(t))]:
+            add({"op": Sym("insert"), "tree": T(t), "groups": [[old, "n0"]], "idx": True}, op="insert", root1=True)
     N = {"quick": 60, "thorough": 1200, "search": 120}[tier]
     # ---- clone
     for _ in range(N):
